@@ -16,7 +16,10 @@ CHECK = {
              quick={"checks": 400, "shards": 1, "cap": 600},
              thorough={"checks": 3000, "shards": 16, "cap": 2400},
              floors={"linearizable": {"nontrivial": 0.2, "overlapping-writes-same-cas": 0.06,
-                                      "delete-or-destroy-overlaps-write": 0.12, "transactional": 0.3, "non-transactional": 0.3}}),
+                                      "delete-or-destroy-overlaps-write": 0.12, "transactional": 0.3, "non-transactional": 0.3}},
+             # lock hand-over between two blocked request goroutines is decided by the Go runtime, so a failing schedule
+             # need not fail again when rapid re-runs it; the verdict is a fact about the history that did happen
+             flaky_is_violation=True),
         unit("failedwrite", "kv", _FILES, "^TestVerif_C14_FailedWrite$",
              quick={"checks": 300, "shards": 1, "cap": 600},
              thorough={"checks": 2000, "shards": 16, "cap": 2400},
